@@ -371,3 +371,155 @@ pub proof fn lemma_move_winv(u1: UnitPropagate, u2: UnitPropagate, m: PartialMod
         }
     }
 }
+
+// ---- UnitPropagate::new builds the scheme ----
+pub open spec fn mk(wlp: Vec<Vec<usize>>, wln: Vec<Vec<usize>>, cnf: Cnf) -> UnitPropagate { UnitPropagate { watch_list_pos: wlp, watch_list_neg: wln, cnf: cnf } }
+/// the first n clauses with at least two literals are watched twice
+#[verifier::opaque]
+pub open spec fn built_upto(u: UnitPropagate, n: int) -> bool {
+    forall|i: int| 0 <= i < n && i < u.cnf.clauses@.len() && (#[trigger] u.cnf.clauses@[i])@.len() >= 2 ==> u.two_watched(i)
+}
+pub proof fn lemma_built_start(u: UnitPropagate)
+    requires forall|l: Literal| u.in_rng(l) ==> (#[trigger] u.list(l)).len() == 0,
+    ensures u.entries_ok(), built_upto(u, 0),
+{
+    reveal(UnitPropagate::entries_ok); reveal(built_upto);
+}
+pub proof fn lemma_built_skip(u: UnitPropagate, n: int)
+    requires built_upto(u, n), 0 <= n < u.cnf.clauses@.len(), u.cnf.clauses@[n]@.len() < 2,
+    ensures built_upto(u, n + 1),
+{
+    reveal(built_upto);
+}
+pub proof fn lemma_built_done(u: UnitPropagate)
+    requires built_upto(u, u.cnf.clauses@.len() as int),
+    ensures u.all_two_watched(),
+{
+    reveal(UnitPropagate::all_two_watched); reveal(built_upto);
+}
+/// one step of the initial scan: clause idx (at least two literals) is entered into the lists of its literals 1 and 0
+pub proof fn lemma_built_step(u1: UnitPropagate, u2: UnitPropagate, idx: usize)
+    requires
+        u1.cnf.wf(), distinct_lits(u1.cnf.clauses@), u1.entries_ok(), built_upto(u1, idx as int),
+        idx < u1.cnf.clauses@.len(), u1.cnf.clauses@[idx as int]@.len() >= 2,
+        u2.cnf == u1.cnf,
+        ({
+            let a = u1.cnf.clauses@[idx as int]@[1]; let b = u1.cnf.clauses@[idx as int]@[0];
+            &&& u2.list(a) == u1.list(a).push(idx) && u2.list(b) == u1.list(b).push(idx)
+            &&& forall|l: Literal| u1.in_rng(l) && l != a && l != b ==> #[trigger] u2.list(l) == u1.list(l)
+        }),
+    ensures u2.entries_ok(), built_upto(u2, idx as int + 1),
+{
+    reveal(UnitPropagate::entries_ok); reveal(built_upto);
+    let cs = u1.cnf.clauses@;
+    let c = cs[idx as int]@;
+    let a = c[1]; let b = c[0];
+    assert(cs[idx as int][1] == a && cs[idx as int][0] == b);
+    assert(u1.in_rng(a) && u1.in_rng(b));
+    assert(a != b) by { assert(cs[idx as int]@[0] != cs[idx as int]@[1]); }
+    assert forall|l: Literal, j: int| u2.in_rng(l) && 0 <= j < u2.list(l).len() implies entry_ok(cs, l, #[trigger] u2.list(l)[j]) by {
+        if l == a || l == b {
+            if j < u1.list(l).len() { assert(u2.list(l)[j] == u1.list(l)[j]); } else { assert(u2.list(l)[j] == idx); assert(c.contains(l)); }
+        } else { assert(u2.list(l) == u1.list(l)); }
+    }
+    assert forall|i: int| 0 <= i < idx as int + 1 && i < cs.len() && (#[trigger] cs[i])@.len() >= 2 implies u2.two_watched(i) by {
+        if i < idx {
+            assert(u1.two_watched(i));
+            let (x, y) = choose|x: Literal, y: Literal| x != y && u1.in_rng(x) && u1.in_rng(y) && #[trigger] u1.list(x).contains(i as usize) && #[trigger] u1.list(y).contains(i as usize);
+            lemma_list_grows(u1, u2, a, b, idx, x, i as usize);
+            lemma_list_grows(u1, u2, a, b, idx, y, i as usize);
+            assert(u2.list(x).contains(i as usize) && u2.list(y).contains(i as usize));
+        } else {
+            assert(u2.list(a)[u1.list(a).len() as int] == idx);
+            assert(u2.list(b)[u1.list(b).len() as int] == idx);
+            assert(u2.list(a).contains(i as usize) && u2.list(b).contains(i as usize));
+        }
+    }
+}
+pub proof fn lemma_list_grows(u1: UnitPropagate, u2: UnitPropagate, a: Literal, b: Literal, idx: usize, l: Literal, k: usize)
+    requires
+        u1.in_rng(l), u1.list(l).contains(k),
+        u2.list(a) == u1.list(a).push(idx), u2.list(b) == u1.list(b).push(idx),
+        forall|l2: Literal| u1.in_rng(l2) && l2 != a && l2 != b ==> #[trigger] u2.list(l2) == u1.list(l2),
+    ensures u2.list(l).contains(k),
+{
+    let p = choose|p: int| 0 <= p < u1.list(l).len() && u1.list(l)[p] == k;
+    if l == a || l == b { assert(u2.list(l)[p] == k); } else { assert(u2.list(l) == u1.list(l)); }
+}
+
+// ---- the watch invariant relative to a model: established by decide, kept for every earlier model ----
+pub proof fn lemma_watch_empty(u: UnitPropagate, m: PartialModel)
+    requires forall|x: VarLabel| m.val(x) is None,
+    ensures u.watch_ok(m),
+{
+    reveal(UnitPropagate::watch_ok);
+}
+/// after a decide from model m1 that returned m2: the invariant holds for m2
+pub proof fn lemma_watch_step(u1: UnitPropagate, u2: UnitPropagate, m1: PartialModel, m2: PartialModel)
+    requires u1.watch_ok(m1), frame_ok(u1, u2, m1), newly_ok(u2, m1, m2), extends(m2, m1), u1.inv(),
+    ensures u2.watch_ok(m2),
+{
+    reveal(UnitPropagate::watch_ok); reveal(newly_ok);
+    let cs = u1.cnf.clauses@;
+    assert forall|l: Literal, j: int| u2.in_rng(l) && lit_false(l, m2) && 0 <= j < u2.list(l).len() implies clause_true_p(cs[(#[trigger] u2.list(l)[j]) as int]@, m2) by {
+        if m1.val(l.lbl) is Some {
+            assert(m2.val(l.lbl) == m1.val(l.lbl));
+            assert(u2.list(l) == u1.list(l));
+            assert(clause_true_p(cs[u1.list(l)[j] as int]@, m1));
+            lemma_sat_mono(cs[u1.list(l)[j] as int]@, m1, m2);
+        }
+    }
+}
+/// ... and it still holds for every model mk that the decided-from model m1 extends (the frames below: what pop returns to),
+/// whether the decide succeeded or reported UNSAT
+pub proof fn lemma_watch_frame(u1: UnitPropagate, u2: UnitPropagate, m1: PartialModel, mk: PartialModel)
+    requires u1.watch_ok(mk), frame_ok(u1, u2, m1), extends(m1, mk),
+    ensures u2.watch_ok(mk),
+{
+    reveal(UnitPropagate::watch_ok);
+    let cs = u1.cnf.clauses@;
+    assert forall|l: Literal, j: int| u2.in_rng(l) && lit_false(l, mk) && 0 <= j < u2.list(l).len() implies clause_true_p(cs[(#[trigger] u2.list(l)[j]) as int]@, mk) by {
+        assert(m1.val(l.lbl) == mk.val(l.lbl));
+        assert(u2.list(l) == u1.list(l));
+    }
+}
+
+/// a clause is not stuck under m: it has a literal assigned true, or at least two unassigned literal positions
+pub open spec fn not_stuck(c: Seq<Literal>, m: PartialModel) -> bool {
+    clause_true_p(c, m) || exists|j: int, k: int| 0 <= j < k < c.len() && m.val((#[trigger] c[j]).lbl) is None && m.val((#[trigger] c[k]).lbl) is None
+}
+/// THEOREM (C09, "runs to fixpoint"): under the two-watched-literal scheme and the watch invariant for m, with the literal of
+/// every one-literal clause assigned true and no empty clause, NO clause is falsified or left with exactly one unassigned literal
+pub proof fn lemma_fixpoint(u: UnitPropagate, m: PartialModel)
+    requires
+        u.winv(), u.watch_ok(m), m.wf(),
+        forall|i: int| 0 <= i < u.cnf.clauses@.len() ==> (#[trigger] u.cnf.clauses@[i])@.len() >= 1,
+        forall|i: int| 0 <= i < u.cnf.clauses@.len() && (#[trigger] u.cnf.clauses@[i])@.len() == 1 ==> m.val(u.cnf.clauses@[i]@[0].lbl) == Some(u.cnf.clauses@[i]@[0].pol),
+    ensures
+        forall|i: int| 0 <= i < u.cnf.clauses@.len() ==> not_stuck((#[trigger] u.cnf.clauses@[i])@, m),
+{
+    reveal(UnitPropagate::watch_ok); reveal(UnitPropagate::all_two_watched); reveal(UnitPropagate::entries_ok);
+    let cs = u.cnf.clauses@;
+    assert forall|i: int| 0 <= i < cs.len() implies not_stuck((#[trigger] cs[i])@, m) by {
+        let c = cs[i]@;
+        if c.len() == 1 {
+            assert(lit_true_p(c[0], m));
+        } else {
+            assert(u.two_watched(i));
+            let (a, b) = choose|a: Literal, b: Literal| a != b && u.in_rng(a) && u.in_rng(b) && #[trigger] u.list(a).contains(i as usize) && #[trigger] u.list(b).contains(i as usize);
+            let pa = choose|p: int| 0 <= p < u.list(a).len() && u.list(a)[p] == i as usize;
+            let pb = choose|p: int| 0 <= p < u.list(b).len() && u.list(b)[p] == i as usize;
+            assert(entry_ok(cs, a, u.list(a)[pa]) && entry_ok(cs, b, u.list(b)[pb]));
+            let ja = choose|j: int| 0 <= j < c.len() && c[j] == a;
+            let jb = choose|j: int| 0 <= j < c.len() && c[j] == b;
+            if lit_false(a, m) { assert(clause_true_p(cs[u.list(a)[pa] as int]@, m)); }
+            else if lit_false(b, m) { assert(clause_true_p(cs[u.list(b)[pb] as int]@, m)); }
+            else if m.val(a.lbl) is Some { assert(lit_true_p(c[ja], m)); }
+            else if m.val(b.lbl) is Some { assert(lit_true_p(c[jb], m)); }
+            else {
+                assert(ja != jb);
+                if ja < jb { assert(m.val(c[ja].lbl) is None && m.val(c[jb].lbl) is None); } else { assert(m.val(c[jb].lbl) is None && m.val(c[ja].lbl) is None); }
+            }
+        }
+    }
+}
